@@ -86,6 +86,8 @@ def run(ctx):
         pre = [{"op": "adopt", "p": b, "ctx": "driver"} for b in base["pre_all"]]
         script = pre + [{"op": "accept"}, {"op": "wait_running"}] + [{"op": "wait_start", "p": b} for b in base["pre_all"]]
         script += [{"op": "execute", "p": "x1p", "ctx": base["exec_ctx"][0], "how": "exc:TimeoutError"}, {"op": "execute", "p": "x2p", "ctx": base["exec_ctx"][-1], "how": "exc:TimeoutError"}]
+        # (... or that the framework's own machinery raises for reasons of its own: RuntimeError)
+        script += [{"op": "execute", "p": "x1p", "ctx": base["exec_ctx"][-1], "how": "exc:RuntimeError"}, {"op": "execute", "p": "x2p", "ctx": base["exec_ctx"][0], "how": "exc:LookupError"}]
         script += [{"op": "step", "p": b} for b in base["pre_all"]] + [{"op": "polls", "n": 2}]
         extra.append({"seed": ctx.seed, "jitter": 0.0, "payloads": base["payloads"], "script": script, "shape": "targeted-execute-raises-timeouterror-" + xf})
     # a payload may RETURN an exception object (it is a value like any other), and execute() may
